@@ -202,15 +202,8 @@ def run(ck, prog):
     # ended (and shadow fields / template arguments there).
     ck.rule("R05.8", "a construct that opens a scope binds its variables after opening it, not into the enclosing scope")
     ADD_VAR = "ide::index::scope::Scopes::add_variable"
-    n_bind = 0
-    for b in ide:
-        calls = list(b.calls())
-        adds = [i for i, t in calls if Body.callee(t) == ADD_VAR]
-        pushes = {i for i, t in calls if Body.callee(t) == PUSH}
-        pops = {i for i, t in calls if Body.callee(t) == POP}
-        if not adds or not pushes or b.path in (PUSH, POP, ADD_VAR):
-            continue
-        # depth of every reachable (block, depth)
+
+    def depth_states(b, pushes, pops):
         seen = {(0, 0)}
         st = [(0, 0)]
         while st:
@@ -222,15 +215,45 @@ def run(ck, prog):
                 if (nx, nd) not in seen:
                     seen.add((nx, nd))
                     st.append((nx, nd))
-        for a in adds:
+        return seen
+    info = {}
+    for b in ide:
+        if b.path in (PUSH, POP, ADD_VAR):
+            continue
+        calls = list(b.calls())
+        pushes = {i for i, t in calls if Body.callee(t) == PUSH}
+        pops = {i for i, t in calls if Body.callee(t) == POP}
+        info[b.path] = (b, calls, pushes, pops, depth_states(b, pushes, pops))
+    # functions that bind a variable into the scope that was current when they were called ("outward binders"):
+    # Defvar::index does by design; a construct with its own scope must not
+    outward = set()
+    changed = True
+    while changed:
+        changed = False
+        for pth, (b, calls, pushes, pops, seen) in info.items():
+            if pth in outward:
+                continue
+            for i, t in calls:
+                c = Body.callee(t)
+                if (c == ADD_VAR or c in outward) and (i, 0) in seen:
+                    outward.add(pth)
+                    changed = True
+                    break
+    n_bind = 0
+    for pth, (b, calls, pushes, pops, seen) in sorted(info.items()):
+        if not pushes:
+            continue
+        binds = [(i, Body.callee(t)) for i, t in calls if Body.callee(t) == ADD_VAR or Body.callee(t) in outward]
+        for k, (a, callee) in enumerate(binds):
             n_bind += 1
             outside = (a, 0) in seen
             later_push = outside and cfg.path_exists(b, a, lambda x: x in pushes) is not None
-            ck.ob("R05.8", "bind-inside:%s:bb%d" % (b.path, adds.index(a)), not later_push,
-                  "variable bound at scope depth >= 1 of this function, or no scope is opened after it",
-                  msg="%s binds a variable before opening the scope of the construct (add_variable at %s, Scopes::push later on "
-                      "the same path): the variable lands in the enclosing scope and stays visible after the construct ended"
-                      % (b.path, b.where(a)))
+            what = "add_variable" if callee == ADD_VAR else callee.rsplit("::", 2)[-2] + "::" + callee.rsplit("::", 1)[-1]
+            ck.ob("R05.8", "bind-inside:%s:%d" % (pth, k), not later_push,
+                  "%s happens at scope depth >= 1 of this function, or no scope is opened after it" % what,
+                  msg="%s binds a variable (%s at %s) before opening the scope of the construct (Scopes::push later on the same "
+                      "path): the variable lands in the enclosing scope and stays visible after the construct ended"
+                      % (pth, what, b.where(a)))
     ck.floor("R05.8", "variable bindings in scope-opening functions", n_bind, 4)
 
     ck.rule("R05.7", "a declaration is registered whether or not the type of its value is known")
